@@ -3,6 +3,40 @@ CONV = "node/conversions"
 
 PEG = "node/pegnet"
 
+NODE = "node"
+
+
+def batch(id, func, quick=None, thorough=None, thorough_only=False, must=("executed", "rejected")):
+    h = {"id": id, "func": func, "pkg": NODE, "pkgname": "node", "load": ["./node"], "params": {}, "must_cover": list(must),
+         "max_witness_replays": 4}
+    if quick is not None:
+        h["params"]["quick"] = quick
+    if thorough is not None:
+        h["params"]["thorough"] = thorough
+    if thorough_only:
+        h["thorough_only"] = True
+        h["params"]["quick"] = thorough
+    return h
+
+
+BATCH_HARNESSES = [
+    batch("batch-1tx", "VerifBatch", {"maxtx": 1, "maxout": 2, "tickerset": 1}, {"maxtx": 1, "maxout": 2, "tickerset": 2},
+          must=("executed", "rejected", "dropped")),
+    batch("batch-2tx", "VerifBatch", {"maxtx": 2, "exactntx": 1, "maxout": 1, "tickerset": 0, "outpool": 2, "fixedrows": 1},
+          {"maxtx": 2, "maxout": 1, "tickerset": 1, "outpool": 4}),
+    batch("batch-nocheck", "VerifBatchNoCheck", {"maxtx": 1, "maxout": 1, "tickerset": 1},
+          {"maxtx": 2, "exactntx": 1, "maxout": 1, "tickerset": 0, "outpool": 2, "fixedrows": 1}),
+    batch("batch-3tx", "VerifBatch", thorough={"maxtx": 3, "exactntx": 1, "maxout": 1, "tickerset": 0, "outpool": 2, "fixedrows": 1},
+          thorough_only=True),
+]
+BATCH_ASSUMPTIONS = [
+    "pre-state: arbitrary rows for the input address, one recipient, one bystander, the burn and zero addresses; every balance and per-asset total < 2^62 (INV I2; excludes SQLite REAL promotion)",
+    "batch satisfies the repo's own ValidData(); one input address; from 2.0 on no PEG destination (ValidatePegTx, as the caller guarantees)",
+    "caller context: transfer-only batches with nil rates, batches with a conversion with a non-empty rate map; a missing map entry and a recorded 0 are the same value",
+    "conversion outputs at the given rates keep per-asset totals < 2^62",
+    "SQL semantics per the store model (validated by native replays on real SQLite each run); fat103 signature validation not involved in this unit",
+]
+
 PROPS = {
     # internal: engine / SQL model conformance smoke (not a property; not in MANIFEST)
     "X00": {
@@ -10,6 +44,19 @@ PROPS = {
             {"func": "VerifSQLSmoke", "pkg": PEG, "pkgname": "pegnet", "load": ["./node/pegnet"],
              "must_cover": ["sufficient", "insufficient"]},
         ],
+    },
+    "C03": {
+        "asserts": ["C03.", "uncaught-panic"],
+        "harnesses": BATCH_HARNESSES,
+        "bounds": {"quick": "applyTransactionBatch+recordBatch: 1 tx (<=2 outputs, assets PEG/pUSD/pFCT, outputs to self/other/burn/zero address, all row-presence patterns) and exactly 2 tx (assets PEG/pUSD, outputs to self/other); height, amounts, balances (<2^62), rates, averages symbolic; CHECK constraints on and off",
+                   "thorough": "1 tx over 5 assets; 1..2 tx over 3 assets with all output addresses and row patterns; exactly 3 tx over PEG/pUSD"},
+        "assumptions": BATCH_ASSUMPTIONS,
+    },
+    "C04": {
+        "asserts": ["C04.", "uncaught-panic"],
+        "harnesses": BATCH_HARNESSES,
+        "bounds": {"quick": "as C03 (same harness, supply/recipient assertions)", "thorough": "as C03"},
+        "assumptions": BATCH_ASSUMPTIONS,
     },
     "C07": {
         "harnesses": [
